@@ -84,6 +84,10 @@ def gen_histories(ctx):
             for a in firsts:
                 for b in CMDS:
                     hist.append((cname, CONTEXTS[cname] + [a, b]))
+    # a directory renamed to a place below itself, one and several levels down (the intermediate directories exist)
+    for tail in (["RNTO d/sub/moved", "MLST d", "MLST d/sub", "CWD d/sub"], ["RNTO d/moved", "MLST d"], ["RNTO d/sub/../sub/m2", "MLST d/g.txt"], ["RNTO /d/sub/deeper", "PWD", "MLSD d"]):
+        hist.append(("login", ["USER bob", "RNFR d"] + tail))
+        hist.append(("login", ["USER bob", "MKD d/sub/x", "RNFR d"] + tail))
     # REST x ; [X] ; transfer  (restart-offset scope).  The data connection is made first, as the client does.
     for r in ("REST 3", "REST 100", "REST \u0663"):
         for t in ("RETR f.txt", "STOR f.txt", "APPE f.txt"):
